@@ -1,7 +1,7 @@
 """Generated/BrdfGlue.lean: `sparrowpy.brdf.create_from_scattering` and `create_from_directional_scattering`.
 
 A *recogniser* (as bakeglue.py): every statement must equal its normal form in EXPECTED; the Lean text is fixed and renders the
-array statements one by one.  Readings: the type guards and the optional file output do not touch `brdf`; a missing absorption is
+array statements one by one.  Readings: the type guards (`if not isinstance(…): raise TypeError(…)`, matched by shape, their message text is not pinned) and the optional file output do not touch `brdf`; a missing absorption is
 the zero vector; `receiver_weights *= 2 * np.pi / np.sum(receiver_weights)` rescales by `(2π)/Σw` (sum left to right);
 `receiver_directions.find_nearest(image_source)[0][0]` is an OPAQUE index map `i_receiver` (the outgoing sample nearest to the
 mirror image of each incoming direction); `cos_factor` has shape (receivers, sources): `cos(colat_src[s]) * w[r]`, and is read at
@@ -53,6 +53,9 @@ def generate():
         if len(body) != len(want):
             raise TranslationError('%s: %d statements, the recogniser knows %d' % (name, len(body), len(want)))
         for k, (s, w) in enumerate(zip(body, want)):
+            if w.startswith('if not isinstance(') and '\n    raise TypeError(' in w and isinstance(s, ast.If) and not s.orelse \
+                    and len(s.body) == 1 and isinstance(s.body[0], ast.Raise):
+                continue        # a type guard: it raises or does nothing; its message text is not pinned
             if src(s) != w:
                 raise TranslationError('%s: statement %d is not in the recognised form: %s' % (name, k, src(s)[:160]))
         n += sum(1 for _ in ast.walk(fn) if isinstance(_, ast.stmt))
